@@ -74,6 +74,24 @@ def cholesky (m : FMat) : FMat := Id.run do
         l := l.set! i ((l.getD i #[]).set! j (s / (l.getD j #[]).getD j 1.0))
   return ⟨l.map (fun r => ⟨r⟩)⟩
 def choSolve (l : FMat) (b : FVec) : FVec := l.solveLowerT (l.solveLower b)
+def ofFn (n : Nat) (f : Nat → Nat → Float) : FMat :=
+  ⟨(List.range n).toArray.map (fun i => ⟨(List.range n).toArray.map (fun j => f i j)⟩)⟩
+def one (n : Nat) : FMat := ofFn n (fun i j => if i == j then 1.0 else 0.0)
+def transpose (m : FMat) : FMat := ofFn m.n (fun i j => m.get j i)
+def zipM (f : Float → Float → Float) (a b : FMat) : FMat := ⟨Array.zipWith (FVec.zip f) a.rows b.rows⟩
+def add (a b : FMat) : FMat := zipM (· + ·) a b
+def sub (a b : FMat) : FMat := zipM (· - ·) a b
+def smul (c : Float) (a : FMat) : FMat := ⟨a.rows.map (fun r => r.map (fun x => c * x))⟩
+def col (m : FMat) (j : Nat) : FVec := ⟨m.rows.map (fun r => r.get j)⟩
+def mul (a b : FMat) : FMat := ofFn a.n (fun i j => (a.rows.getD i default).dot (b.col j))
+def outer (u v : FVec) : FMat := ⟨u.a.map (fun ui => v.map (fun vj => ui * vj))⟩
+/-- does the Cholesky factor exist (all pivots positive and finite)? -/
+def cholOk (l : FMat) : Bool := (List.range l.n).all (fun i => let d := l.get i i; d > 0.0 && !d.isNaN && !d.isInf)
+/-- inverse of a lower-triangular matrix -/
+def invLower (l : FMat) : FMat :=
+  let n := l.n
+  let cols := (List.range n).map (fun j => l.solveLower ⟨(List.range n).toArray.map (fun i => if i == j then 1.0 else 0.0)⟩)
+  ofFn n (fun i j => (cols.getD j default).get i)
 end FMat
 
 end HmcVerif
